@@ -200,6 +200,10 @@ Proof.
     intros x r y r' s H. cbn [fst snd] in *. ok_inv H.
   - intros bs. cbn [dec]. apply IHt.
   - intros bs. cbn [dec]. apply IHt.
+  - eapply extends_ext; [|apply (extends_bind (read_uint w)
+        (fun ur => if vl0 && negb (leaf_ok k (fst ur)) then Err EINVALID else Ok (VInt (fst ur), snd ur)))];
+      [reflexivity | apply read_uint_ext |].
+    intros x r y r' s H; cbn [fst snd] in *. destruct (vl0 && negb (leaf_ok k x)); [discriminate|ok_inv H].
 Qed.
 
 (* ---------- truncation of a valid encoding is an error ---------- *)
